@@ -187,13 +187,29 @@ def opOf (j : Json) : Op :=
 
 def findDst (c : Cfg) (n : String) : Option DST := c.dsts.find? (fun (d : DST) => d.name == n)
 
+/-- evaluates the hypothesis SizeStable along a run (classification of finding F8) -/
+def sizeStableRun (c : Cfg) (d : DST) : List Op → St → Bool
+  | [], _ => true
+  | op :: ops, s =>
+    let ok := match op with
+      | .trace en args =>
+        match d.erts.find? (fun (e : ERT) => e.name == en) with
+        | some e =>
+          let s1 := traceClock d s
+          if s.halted || !s1.c.isTracingEnabled then true else sizeStableCall c d e args s1
+        | none => true
+      | _ => true
+    ok && sizeStableRun c d ops (stepOp c d op s)
+
 def runHist (c : Cfg) (j : Json) : String :=
   match findDst c (getStr j "dst") with
   | none => "bad-dst"
   | some d =>
     let s0 := rtInit (getNat j "buf") (platOf ((getObj? j "plat").getD .null))
-    let s := runOps c d ((getArr j "calls").map opOf) s0
+    let ops := (getArr j "calls").map opOf
+    let s := runOps c d ops s0
     let lines := s.log.reverse.filterMap (showEv (getBool j "stores"))
+    let lines := if getBool j "hyps" then lines ++ ["hyp SizeStable=" ++ b01 (sizeStableRun c d ops s0)] else lines
     (Json.arr (lines.map Json.str).toArray).compress
 
 def handle (cfg : Cfg) (j : Json) : Cfg × String :=
